@@ -14,7 +14,7 @@ claimed={
  "C07":("exploration","§3 C07","reference bankruptcy spec in the insured/partial/uninsured/wiped regimes, entitlement of the signer, depositor share invariance, killed-state permanence over the whole history"),
  "C08":("fault_enumeration","§3 C08","exhaustive single-mutation sweep (on forks) of every sampled accepted transaction against a hand-written binding table: every role signer unsigned and re-signed by every identity, every bound slot replaced by every applicable foreign twin; exception paths (frozen account, receivership, permissionless bankruptcy) recognised by an independent entitlement predicate"),
  "C09":("fault_enumeration","§3 C09","oracle fault injection (28 fault kinds x role of the faulted bank) with the real price adapter executed on forks after every oracle write and clock advance: verdict and value compared with the reference; decisions that depended on a price are judged with unusable collateral at zero and unusable debt prices as fatal"),
- "C10":("exploration","§3 C10","reference acceptor for receivership transaction shapes (start first after whitelisted prefix, single, matching end last for the same account, only withdraw/repay in between, start/end not via CPI) plus end-state inequalities on the reference model (unhealthy at start, not worse and not positive at end, premium bound, no zero-weight/zero-price seizure, markers never survive)"),
+ "C10":("exploration","§3 C10","reference acceptor for receivership transaction shapes (start first after whitelisted prefix, single, matching end last for the same account, only withdraw/repay in between, start/end not via CPI) plus end-state inequalities on the reference model (unhealthy at start, not worse and not positive at end, premium bound, no zero-weight/zero-price seizure, markers never survive); brackets with venue-withdrawal legs in venue-bank worlds"),
  "C11":("exploration","§3 C11","flash-loan bracket: flag never survives a committed transaction, every flagged account is initially healthy at commit by the reference engine, the named end is a later matching end not under CPI, flagged accounts are never liquidated/settled, forbidden account states never start"),
  "C12":("exploration","§3 C12","field-level byte diff of every successful admin instruction against the role's allowed-write mask, frozen-bank masks, freeze permanence over the whole history, deleverage bracket acceptor and daily window accounting"),
  "C13":("exploration","§3 C13","independent rational validator of every accepted bank configuration (weights, isolated, oracle age, e-mode entries vs this bank's liability weights and the group's caps, killed state neither entered nor left) plus equal-price implication init-healthy => maint-healthy with the real pulse_health on forks"),
